@@ -63,30 +63,9 @@ theorem lineToks_circuit (F : NumFmt) (name : String) (ps qvs : List String) (b 
   unfold lineToks
   rw [e, stripNL_snoc]
 
-theorem parseBlock_items (F : NumFmt) (d : Nat) (g : Instruction → Instruction) (b : Instruction)
-    (bs : List Instruction) (hbody : ∀ i ∈ b :: bs, RT F d i (g i)) (rest : List Token)
-    (hrest : restOk rest = true) :
-    parseBlock (parseInstructionAt (d + 1)) ((b :: bs).flatMap (calItemToks F) ++ .newLine :: rest) =
-      .ok ((b :: bs).map g) (.newLine :: rest) := by
-  have hitem : ∀ y ∈ b :: bs, ∀ r, startsNL r = true →
-      parseBlockInstruction (parseInstructionAt (d + 1)) (calItemToks F y ++ r) = .ok (g y) r := by
-    intro y hy r hr
-    cases r with
-    | nil => simp [startsNL] at hr
-    | cons t r' =>
-      cases t <;> simp [startsNL] at hr
-      have := (hbody y hy r').1
-      simp only [parseBlockInstruction, preceded, bind_eq, Parser.bind, calItemToks, List.cons_append, tok,
-        if_true, this, pure_eq, Parser.pure]
-  have hm := many1_items_ok (parseBlockInstruction (parseInstructionAt (d + 1))) (calItemToks F) g startsNL
-    b bs (.newLine :: rest) hitem (fun y _ => by simp [calItemToks])
-    (fun y _ r => by simp [calItemToks, startsNL]) rfl (parseBlockInstruction_stop _ rest hrest)
-  simp only [parseBlock, List.flatMap_cons, List.append_assoc]
-  exact hm
-
-theorem rt_measureCal_gen (F : NumFmt) (d : Nat) (id : MeasureCalibrationIdentifier)
+theorem rt_measureCal_blk (F : NumFmt) (d : Nat) (id : MeasureCalibrationIdentifier)
     (body : List Instruction) (g : Instruction → Instruction) (hq : noPlaceholder id.qubit = true)
-    (hne : body ≠ []) (hbody : ∀ i ∈ body, RT F d i (g i)) :
+    (hne : body ≠ []) (hbody : BlockRT F d body g) :
     RTtopL (lineToks F (.measureCalibrationDefinition id body)) (d + 1)
       (.measureCalibrationDefinition id (body.map g)) := by
   obtain ⟨name, q, target⟩ := id
@@ -96,7 +75,7 @@ theorem rt_measureCal_gen (F : NumFmt) (d : Nat) (id : MeasureCalibrationIdentif
     subst hb
     apply rttopL_of_command (d + 1) _ _ .defCal _ (lineToks_measureCal F _ b bs)
     intro rest hrest
-    have hblock := parseBlock_items F d g b bs hbody rest hrest
+    have hblock := hbody rest hrest
     simp only [parseCommand, parseDefcal, bind_eq, Parser.bind, List.append_assoc, List.cons_append, cmd, opt,
       tok, if_true, parseDefcalMeasure]
     rw [← List.append_assoc (measureNameToks name)]
@@ -135,10 +114,10 @@ theorem lparen_names (qvs : List String) (h : qvs.all (fun s => !isReservedWord 
   | nil => simp [tok]
   | cons s qs => simp [tok, (nameTok_not_punct s).2.1]
 
-theorem rt_circuit_gen (F : NumFmt) (d : Nat) (name : String) (ps qvs : List String)
+theorem rt_circuit_blk (F : NumFmt) (d : Nat) (name : String) (ps qvs : List String)
     (body : List Instruction) (g : Instruction → Instruction)
     (hqv : qvs.all (fun s => !isReservedWord s.toList) = true)
-    (hne : body ≠ []) (hbody : ∀ i ∈ body, RT F d i (g i)) :
+    (hne : body ≠ []) (hbody : BlockRT F d body g) :
     RTtopL (lineToks F (.circuitDefinition name ps qvs body)) (d + 1)
       (.circuitDefinition name ps qvs (body.map g)) := by
   cases hb : body with
@@ -147,12 +126,27 @@ theorem rt_circuit_gen (F : NumFmt) (d : Nat) (name : String) (ps qvs : List Str
     subst hb
     apply rttopL_of_command (d + 1) _ _ .defCircuit _ (lineToks_circuit F name ps qvs b bs)
     intro rest hrest
-    have hblock := parseBlock_items F d g b bs hbody rest hrest
+    have hblock := hbody rest hrest
     simp only [parseCommand, parseDefcircuit, bind_eq, Parser.bind, List.append_assoc, List.cons_append, identTok,
       tokIdentifier, str_toList]
     rw [parseVariableList_toks ps _ (lparen_names qvs hqv _)]
     simp only [many0_variableQubits qvs hqv, tok, if_true]
     erw [hblock]
     cases ps <;> simp [Parser.pure]
+
+theorem rt_measureCal_gen (F : NumFmt) (d : Nat) (id : MeasureCalibrationIdentifier)
+    (body : List Instruction) (g : Instruction → Instruction) (hq : noPlaceholder id.qubit = true)
+    (hne : body ≠ []) (hbody : ∀ i ∈ body, RT F d i (g i)) :
+    RTtopL (lineToks F (.measureCalibrationDefinition id body)) (d + 1)
+      (.measureCalibrationDefinition id (body.map g)) :=
+  rt_measureCal_blk F d id body g hq hne (blockRT_of_RT F d body g hne hbody)
+
+theorem rt_circuit_gen (F : NumFmt) (d : Nat) (name : String) (ps qvs : List String)
+    (body : List Instruction) (g : Instruction → Instruction)
+    (hqv : qvs.all (fun s => !isReservedWord s.toList) = true)
+    (hne : body ≠ []) (hbody : ∀ i ∈ body, RT F d i (g i)) :
+    RTtopL (lineToks F (.circuitDefinition name ps qvs body)) (d + 1)
+      (.circuitDefinition name ps qvs (body.map g)) :=
+  rt_circuit_blk F d name ps qvs body g hqv hne (blockRT_of_RT F d body g hne hbody)
 
 end QV.C02
